@@ -145,10 +145,19 @@ Proof. vm_compute. repeat split. Qed.
 
 (* ------------------------------------------------------------------ SubjectEx *)
 Definition is_rf (ty : Z) : Prop := ty = ptttype.SUBJECT_REPLY \/ ty = ptttype.SUBJECT_FORWARD.
+(* the type goes with the prefix stripped last: pre = ... ++ chunk ++ (one optional blank) *)
+Definition tag_type (p : list Z) (ty : Z) : Prop :=
+  (p = STR_REPLY /\ ty = ptttype.SUBJECT_REPLY) \/ ((p = STR_FORWARD \/ p = STR_LEGACY_FORWARD) /\ ty = ptttype.SUBJECT_FORWARD).
+Definition last_chunk (ty : Z) (pre : list Z) : Prop :=
+  exists pre0 chunk sp p, pre = pre0 ++ chunk ++ sp /\ map to_lower chunk = map to_lower p /\ (sp = [] \/ sp = [32]) /\ tag_type p ty.
+(* nothing strippable is left in front of the returned title *)
+Definition no_prefix_left (rest : list Z) : Prop :=
+  rest = [] \/ (strcase_starts_with rest STR_REPLY = false /\ strcase_starts_with rest STR_FORWARD = false /\
+                strcase_starts_with rest STR_LEGACY_FORWARD = false).
 (* what one call returns: a type, the removed part, the rest *)
 Definition subj_post (ty0 : Z) (t : list Z) (ty : Z) (pre rest : list Z) : Prop :=
-  t = pre ++ rest /\ ((pre = [] /\ ty = ty0) \/ (pre <> [] /\ is_rf ty)) /\
-  (forall st, st <> 1 -> fold_left dbcs_step pre st <> 1).
+  t = pre ++ rest /\ ((pre = [] /\ ty = ty0) \/ (pre <> [] /\ is_rf ty /\ last_chunk ty pre)) /\
+  (forall st, st <> 1 -> fold_left dbcs_step pre st <> 1) /\ no_prefix_left rest.
 
 Lemma to_lower_high x y : to_lower x = to_lower y -> (128 <=? x) = (128 <=? y).
 Proof.
@@ -160,12 +169,14 @@ Proof.
   try apply Z.leb_le in X; try apply Z.leb_le in Y; try apply Z.leb_gt in X; try apply Z.leb_gt in Y; lia.
 Qed.
 Lemma fold_step_lower : forall p t, has_prefix (map to_lower t) (map to_lower p) = true ->
-  (length p <= length t)%nat /\ forall st, fold_left dbcs_step (firstn (length p) t) st = fold_left dbcs_step p st.
+  (length p <= length t)%nat /\ (forall st, fold_left dbcs_step (firstn (length p) t) st = fold_left dbcs_step p st) /\
+  map to_lower (firstn (length p) t) = map to_lower p.
 Proof.
-  induction p as [|y p IH]; intros t H; [split; [cbn; lia|reflexivity]|].
+  induction p as [|y p IH]; intros t H; [split; [cbn; lia|split; reflexivity]|].
   destruct t as [|x t]; [discriminate|]. cbn [map has_prefix] in H. apply andb_true_iff in H. destruct H as [H1 H2].
-  apply Z.eqb_eq in H1. destruct (IH t H2) as [L F]. split; [cbn [length]; lia|].
-  intros st. cbn [length firstn fold_left]. rewrite F. unfold dbcs_step. rewrite (to_lower_high _ _ H1). reflexivity.
+  apply Z.eqb_eq in H1. destruct (IH t H2) as [L [F G]]. split; [cbn [length]; lia|]. split.
+  - intros st. cbn [length firstn fold_left]. rewrite F. unfold dbcs_step. rewrite (to_lower_high _ _ H1). reflexivity.
+  - cbn [length firstn map]. rewrite H1, G. reflexivity.
 Qed.
 
 Definition chunk_ok (p : list Z) : Prop := p <> [] /\ forall st, st <> 1 -> fold_left dbcs_step p st = 0.
@@ -176,19 +187,23 @@ Proof. split; [discriminate|]. intros st H. apply Z.eqb_neq in H. cbn [STR_FORWA
 Lemma chunk_legacy : chunk_ok STR_LEGACY_FORWARD.
 Proof. split; [discriminate|]. intros st H. apply Z.eqb_neq in H. cbn [STR_LEGACY_FORWARD fold_left]. unfold dbcs_step at 6. rewrite H. reflexivity. Qed.
 
+Lemma tag_type_rf p ty : tag_type p ty -> is_rf ty.
+Proof. intros [[_ H]|[_ H]]; [left|right]; exact H. Qed.
+
 Lemma hit_step f p tyh t :
   (forall ty t, (length t < f)%nat -> exists ty' pre rest, subject_loop f ty t = Ok (ty', rest) /\ subj_post ty t ty' pre rest) ->
-  chunk_ok p -> strcase_starts_with t p = true -> (length t < S f)%nat -> is_rf tyh ->
+  chunk_ok p -> strcase_starts_with t p = true -> (length t < S f)%nat -> tag_type p tyh ->
   exists ty' pre rest,
     match drop_prefix p t with
     | Ok [] => Ok (tyh, [])
     | Ok (c :: r) => subject_loop f tyh (if c =? 32 then r else c :: r)
     | Crash => Crash
     | Hang => Hang
-    end = Ok (ty', rest) /\ t = pre ++ rest /\ pre <> [] /\ is_rf ty' /\ (forall st, st <> 1 -> fold_left dbcs_step pre st <> 1).
+    end = Ok (ty', rest) /\ t = pre ++ rest /\ pre <> [] /\ is_rf ty' /\ last_chunk ty' pre /\
+    (forall st, st <> 1 -> fold_left dbcs_step pre st <> 1) /\ no_prefix_left rest.
 Proof.
-  intros IH [Pne P0] H L RF. unfold strcase_starts_with, cstr_tolower in H.
-  destruct (fold_step_lower p t H) as [Lp F]. unfold drop_prefix.
+  intros IH [Pne P0] H L TT. pose proof (tag_type_rf _ _ TT) as RF. unfold strcase_starts_with, cstr_tolower in H.
+  destruct (fold_step_lower p t H) as [Lp [F G]]. unfold drop_prefix.
   replace (lenZ t <? lenZ p) with false by (symmetry; apply Z.ltb_ge; unfold lenZ; lia).
   assert (Hp : (0 < length p)%nat) by (destruct p; [contradiction|cbn; lia]).
   pose proof (firstn_skipn (length p) t) as S.
@@ -197,20 +212,28 @@ Proof.
   assert (F0 : forall st, st <> 1 -> fold_left dbcs_step (firstn (length p) t) st = 0) by (intros st Hst; rewrite F; apply P0; exact Hst).
   destruct (skipn (length p) t) as [|c r] eqn:K.
   - exists tyh, t, []. split; [reflexivity|]. split; [rewrite app_nil_r; reflexivity|]. split; [intros ->; apply Fne; apply firstn_nil|].
-    split; [exact RF|]. intros st Hst. rewrite app_nil_r in S. rewrite <- S, F0 by exact Hst. discriminate.
+    split; [exact RF|]. rewrite app_nil_r in S. split; [|split; [|left; reflexivity]].
+    + exists [], (firstn (length p) t), [], p. split; [rewrite app_nil_r; symmetry; exact S|]. split; [exact G|]. split; [left; reflexivity|exact TT].
+    + intros st Hst. rewrite <- S, F0 by exact Hst. discriminate.
   - assert (Lk : length (c :: r) = (length t - length p)%nat) by (rewrite <- K; apply skipn_length).
     cbn [length] in Lk.
     destruct (c =? 32) eqn:E.
-    + destruct (IH tyh r ltac:(lia)) as [ty' [pre [rest [R [A [B C]]]]]]. apply Z.eqb_eq in E. subst c.
+    + destruct (IH tyh r ltac:(lia)) as [ty' [pre [rest [R [A [B [C D]]]]]]]. apply Z.eqb_eq in E. subst c.
       exists ty', (firstn (length p) t ++ 32 :: pre), rest. split; [exact R|]. split; [rewrite <- app_assoc; cbn [app]; rewrite <- A; symmetry; exact S|].
       split; [intros Z; apply app_eq_nil in Z; destruct Z; contradiction|].
-      split; [destruct B as [[_ ->]|[_ B]]; assumption|].
-      intros st Hst. rewrite fold_left_app, F0 by exact Hst. cbn [fold_left]. apply C. cbv. discriminate.
-    + destruct (IH tyh (c :: r) ltac:(cbn [length]; lia)) as [ty' [pre [rest [R [A [B C]]]]]].
+      split; [destruct B as [[_ ->]|[_ [B _]]]; assumption|]. split; [|split; [|exact D]].
+      * destruct B as [[-> ->]|[_ [_ [pre0 [chunk [sp [p' [B1 [B2 [B3 B4]]]]]]]]]].
+        -- exists [], (firstn (length p) t), [32], p. split; [reflexivity|]. split; [exact G|]. split; [right; reflexivity|exact TT].
+        -- exists (firstn (length p) t ++ 32 :: pre0), chunk, sp, p'. split; [rewrite B1, <- app_assoc; reflexivity|]. split; [exact B2|]. split; assumption.
+      * intros st Hst. rewrite fold_left_app, F0 by exact Hst. cbn [fold_left]. apply C. cbv. discriminate.
+    + destruct (IH tyh (c :: r) ltac:(cbn [length]; lia)) as [ty' [pre [rest [R [A [B [C D]]]]]]].
       exists ty', (firstn (length p) t ++ pre), rest. split; [exact R|]. split; [rewrite <- app_assoc, <- A; symmetry; exact S|].
       split; [intros Z; apply app_eq_nil in Z; destruct Z; contradiction|].
-      split; [destruct B as [[_ ->]|[_ B]]; assumption|].
-      intros st Hst. rewrite fold_left_app, F0 by exact Hst. apply C. discriminate.
+      split; [destruct B as [[_ ->]|[_ [B _]]]; assumption|]. split; [|split; [|exact D]].
+      * destruct B as [[-> ->]|[_ [_ [pre0 [chunk [sp [p' [B1 [B2 [B3 B4]]]]]]]]]].
+        -- exists [], (firstn (length p) t), [], p. split; [rewrite !app_nil_r; reflexivity|]. split; [exact G|]. split; [left; reflexivity|exact TT].
+        -- exists (firstn (length p) t ++ pre0), chunk, sp, p'. split; [rewrite B1, <- app_assoc; reflexivity|]. split; [exact B2|]. split; assumption.
+      * intros st Hst. rewrite fold_left_app, F0 by exact Hst. apply C. discriminate.
 Qed.
 
 Lemma subject_loop_spec : forall fuel ty t, (length t < fuel)%nat ->
@@ -218,35 +241,40 @@ Lemma subject_loop_spec : forall fuel ty t, (length t < fuel)%nat ->
 Proof.
   induction fuel as [|f IH]; intros ty t L; [lia|]. cbn [subject_loop].
   destruct t as [|x t'] eqn:Et.
-  - exists ty, [], []. split; [reflexivity|]. split; [reflexivity|]. split; [left; split; reflexivity|intros st H; exact H].
+  - exists ty, [], []. split; [reflexivity|]. split; [reflexivity|]. split; [left; split; reflexivity|]. split; [intros st H; exact H|left; reflexivity].
   - rewrite <- Et in *. clear Et x t'.
-    assert (Done : forall ty' pre rest X, X = Ok (ty', rest) /\ t = pre ++ rest /\ pre <> [] /\ is_rf ty' /\ (forall st, st <> 1 -> fold_left dbcs_step pre st <> 1) ->
+    assert (Done : forall ty' pre rest X, X = Ok (ty', rest) /\ t = pre ++ rest /\ pre <> [] /\ is_rf ty' /\ last_chunk ty' pre /\
+                     (forall st, st <> 1 -> fold_left dbcs_step pre st <> 1) /\ no_prefix_left rest ->
                    X = Ok (ty', rest) /\ subj_post ty t ty' pre rest).
-    { intros ty' pre rest X [A [B [C [D E]]]]. split; [exact A|]. split; [exact B|]. split; [right; split; assumption|exact E]. }
+    { intros ty' pre rest X [A [B [C [D [E [F G]]]]]]. split; [exact A|]. split; [exact B|]. split; [right; repeat split; assumption|]. split; assumption. }
     destruct (strcase_starts_with t STR_REPLY) eqn:H1.
-    { destruct (hit_step f STR_REPLY ptttype.SUBJECT_REPLY t IH chunk_reply H1 L (or_introl eq_refl)) as [ty' [pre [rest K]]].
+    { destruct (hit_step f STR_REPLY ptttype.SUBJECT_REPLY t IH chunk_reply H1 L (or_introl (conj eq_refl eq_refl))) as [ty' [pre [rest K]]].
       exists ty', pre, rest. apply Done. exact K. }
     destruct (strcase_starts_with t STR_FORWARD) eqn:H2.
-    { destruct (hit_step f STR_FORWARD ptttype.SUBJECT_FORWARD t IH chunk_forward H2 L (or_intror eq_refl)) as [ty' [pre [rest K]]].
+    { destruct (hit_step f STR_FORWARD ptttype.SUBJECT_FORWARD t IH chunk_forward H2 L (or_intror (conj (or_introl eq_refl) eq_refl))) as [ty' [pre [rest K]]].
       exists ty', pre, rest. apply Done. exact K. }
     destruct (strcase_starts_with t STR_LEGACY_FORWARD) eqn:H3.
-    { destruct (hit_step f STR_LEGACY_FORWARD ptttype.SUBJECT_FORWARD t IH chunk_legacy H3 L (or_intror eq_refl)) as [ty' [pre [rest K]]].
+    { destruct (hit_step f STR_LEGACY_FORWARD ptttype.SUBJECT_FORWARD t IH chunk_legacy H3 L (or_intror (conj (or_intror eq_refl) eq_refl))) as [ty' [pre [rest K]]].
       exists ty', pre, rest. apply Done. exact K. }
-    exists ty, [], t. split; [reflexivity|]. split; [reflexivity|]. split; [left; split; reflexivity|intros st H; exact H].
+    exists ty, [], t. split; [reflexivity|]. split; [reflexivity|]. split; [left; split; reflexivity|]. split; [intros st H; exact H|].
+    right. repeat split; assumption.
 Qed.
 
-(* SubjectEx terminates without a panic; what it returns is a suffix of the NUL-terminated title; the type is
-   NORMAL exactly when nothing was removed and REPLY/FORWARD otherwise; the cut is never after a lead byte *)
+(* SubjectEx terminates without a panic; what it returns is a suffix of the NUL-terminated title with no reply/forward
+   tag left in front; the type is NORMAL exactly when nothing was removed, otherwise it is the type of the tag removed
+   last (REPLY for "Re:", FORWARD for "Fw:" and the legacy tag, compared byte-wise case-insensitively, each followed by
+   at most one blank); the cut is never after a lead byte *)
 Lemma subjectex_spec title :
   exists ty pre rest, subject_ex title = Ok (ty, rest) /\ cprefix title = pre ++ rest /\
-    ((pre = [] /\ ty = ptttype.SUBJECT_NORMAL) \/ (pre <> [] /\ (ty = ptttype.SUBJECT_REPLY \/ ty = ptttype.SUBJECT_FORWARD))) /\
-    dbcs_final pre <> 1.
+    ((pre = [] /\ ty = ptttype.SUBJECT_NORMAL) \/ (pre <> [] /\ last_chunk ty pre)) /\
+    no_prefix_left rest /\ dbcs_final pre <> 1.
 Proof.
   unfold subject_ex.
   assert (LA : (length (cprefix title) <= length title)%nat).
   { induction title as [|y a IH]; [cbn; lia|]. cbn [cprefix]. destruct (y =? 0); cbn [length]; lia. }
-  destruct (subject_loop_spec (S (length title)) ptttype.SUBJECT_NORMAL (cprefix title) ltac:(lia)) as [ty [pre [rest [R [A [B C]]]]]].
-  exists ty, pre, rest. split; [exact R|]. split; [exact A|]. split; [exact B|]. apply C. discriminate.
+  destruct (subject_loop_spec (S (length title)) ptttype.SUBJECT_NORMAL (cprefix title) ltac:(lia)) as [ty [pre [rest [R [A [B [C D]]]]]]].
+  exists ty, pre, rest. split; [exact R|]. split; [exact A|]. split; [|split; [exact D|apply C; discriminate]].
+  destruct B as [B|[B1 [_ B2]]]; [left; exact B|right; split; assumption].
 Qed.
 Example subjectex_ex :
   subject_ex [82; 101; 58; 32; 102; 87; 58; 91; 194; 224; 191; 253; 93; 32; 164; 164; 0; 82; 101; 58] = Ok (2, [164; 164]) /\
